@@ -17,7 +17,8 @@ import (
 //   - the region is whatever variable receives `recv.NextBytes(n)` (directly or through a same-package wrapper that just
 //     returns NextBytes of its parameter); every variable defined as a sub-slice of it (`payload := buf[1:]`) and every
 //     slice expression over it (`buf[1:]`, `payload[2:4]`) is an ALIAS with a known offset;
-//   - integers are evaluated: literals, function- and file-level constants, locals with a known value on this path
+//   - integers are evaluated: literals, function-level constants and package-level constants of ANY file of the package
+//     (pkgConsts; constant expressions over other constants such as `1 + UINT64_SIZE`), locals with a known value on this path
 //     (`size = 3`, `k := 9`, `var b byte`), `+ - * /`, integer conversions;
 //   - a write is `alias[i] = e`, `binary.{Little,Big}Endian.PutUintNN(alias, e)`, `copy(alias, src)` when the region was
 //     obtained with `len(src)`, an index / range loop that assigns `alias[i]` for every i below a constant or below
@@ -76,7 +77,7 @@ func (p *swPath) mark(why string) {
 type swWalker struct {
 	fset   *token.FileSet
 	funcs  map[string]*ast.FuncDecl
-	consts map[string]int // package-level integer constants
+	consts map[string]int // package-level integer constants (any file of the package), evaluated
 	recv   string
 	defs   *defTable
 	depth  int
@@ -774,23 +775,23 @@ func genSinkWrites(repo string) (string, error) {
 	if err != nil {
 		return "", err
 	}
-	// package-level integer constants of the file that declares the sink
+	// package-level integer constants of the whole package, evaluated (expressions over other constants included)
 	consts := map[string]int{}
-	if _, f, err := parseFile(repo, "common/zero_copy_sink.go"); err == nil {
-		w0 := &swWalker{fset: fset, consts: consts}
-		for _, d := range f.Decls {
-			if gd, ok := d.(*ast.GenDecl); ok && gd.Tok == token.CONST {
-				for _, sp := range gd.Specs {
-					vs := sp.(*ast.ValueSpec)
-					for i, nm := range vs.Names {
-						if i < len(vs.Values) {
-							if v, ok := w0.evalInt(vs.Values[i], &swPath{}); ok {
-								consts[nm.Name] = v
-							}
-						}
-					}
-				}
+	exprs := pkgConsts(repo, "common")
+	w0 := &swWalker{fset: fset, consts: consts}
+	for round := 0; round < 8; round++ { // constants defined through other constants settle in a few rounds
+		progress := false
+		for name, e := range exprs {
+			if _, done := consts[name]; done {
+				continue
 			}
+			if v, ok := w0.evalInt(e, &swPath{}); ok {
+				consts[name] = v
+				progress = true
+			}
+		}
+		if !progress {
+			break
 		}
 	}
 	var methods []string
